@@ -1,6 +1,8 @@
 """Shared by checks/c03.py, c14.py, c15.py: formatter configurations, inputs, harness calls."""
 import json
 import os
+import hashlib
+import re
 import vcommon as V
 from gen import vclgen, decorate
 
@@ -71,10 +73,39 @@ def corpus(pid):
 IMPL = os.path.join(V.BUILD, "implrun")
 
 
+WORKERS = 4
+
+
+def par_batch(cmd, reqs, **kw):
+    """V.run_batch over WORKERS processes: the requests are dealt out by size (largest first, to the least loaded
+    worker) and the replies come back in request order.  Each request is independent (the line protocol carries no
+    state from one request to the next), so the split does not change any reply."""
+    n = len(reqs)
+    if n < 64:
+        return V.run_batch(cmd, reqs, **kw)
+    import concurrent.futures
+    k = WORKERS
+    load = [0] * k
+    parts = [[] for _ in range(k)]
+    for i in sorted(range(n), key=lambda i: -len(reqs[i])):
+        j = load.index(min(load))
+        parts[j].append(i)
+        load[j] += len(reqs[i]) + 200
+    for part in parts:
+        part.sort()
+    out = [None] * n
+    with concurrent.futures.ThreadPoolExecutor(max_workers=k) as ex:
+        futs = [ex.submit(V.run_batch, cmd, [reqs[i] for i in part], **kw) for part in parts]
+        for part, fu in zip(parts, futs):
+            for i, r in zip(part, fu.result()):
+                out[i] = r
+    return out
+
+
 def fmt_all(pairs, hang_s=20):
     """pairs: [(config dict, source bytes)] -> parsed replies of `implrun fmt all`"""
     reqs = ["all %s %s" % (cj(c), s.hex()) for c, s in pairs]
-    reps = V.run_batch([IMPL, "fmt"], reqs, hang_s=hang_s, max_failures=40)
+    reps = par_batch([IMPL, "fmt"], reqs, hang_s=hang_s, max_failures=40)
     return [parse_all(r) for r in reps]
 
 
@@ -137,7 +168,7 @@ def split_two_sexps(s):
 
 def lex_many(sources, pos=False, hang_s=20):
     reqs = [("pos " if pos else "") + s.hex() for s in sources]
-    reps = V.run_batch([IMPL, "fmtlex"], reqs, hang_s=hang_s, max_failures=40)
+    reps = par_batch([IMPL, "fmtlex"], reqs, hang_s=hang_s, max_failures=40)
     return [decorate.parse_fmtlex(r, with_pos=pos) if r is not None and not r.startswith(("hang", "died", "crash", "skipped")) else None
             for r in reps]
 
@@ -190,6 +221,7 @@ FOCUS_SNIPPETS = [
     'sub vcl_recv {\n  if (a) { esi; } elsif (b) { esi; } elseif (c) { esi; } else if (d) { esi; } else { esi; }\n  remove req.http.X;\n  unset req.http.Y;\n}\n',
     'acl a {\n  "10.0.0.0"/8;\n  !"10.1.0.0"/16;\n  "::1";\n}\n',
     'sub vcl_recv {\n  switch (req.url) {\n  case "a":\n    esi;\n    break;\n  case ~ "b":\n    fallthrough;\n  default:\n    break;\n  }\n}\n',
+    'sub vcl_recv {\n  set var.p = 10%;\n  set req.http.X = "a" + 5% + "b";\n  log 1% "x";\n  if (var.p == 10%) {\n    esi;\n  }\n}\n',
     'sub b {\n}\nsub a {\n}\nsub vcl_log {\n}\nsub vcl_recv {\n}\nacl z {\n}\nacl y {\n}\nbackend q {\n}\ntable t {\n}\nimport x;\ninclude "i";\npenaltybox p {\n}\nratecounter r {\n}\ndirector d random {\n}\n',
 ]
 
@@ -272,6 +304,7 @@ def gather_inputs(ctx, pid, n_gen, decorated_share=0.6, density=(0.05, 0.4), lin
             continue
         line_inline = rng.random() < line_inline_share
         heavy = b["origin"].startswith("decl")
+        dec.hostile = rng.choice([0.0, 0.0, 0.3, 0.7])       # share of comments with a text of the hostile alphabet
         out, placed = dec.decorate(text, tk, density=rng.uniform(0.3, 0.8) if heavy else rng.uniform(*density),
                                    blank_lines=rng.choice([0.3, 0.5]) if heavy else rng.choice([0, 0.1, 0.3, 0.5]),
                                    line_inline=line_inline, multi=rng.choice([0.0, 0.3, 0.6, 0.9]))
@@ -280,6 +313,13 @@ def gather_inputs(ctx, pid, n_gen, decorated_share=0.6, density=(0.05, 0.4), lin
             continue
         dims["programs_decorated"] += 1
         dims["multi_comment_placeholders_random"] += dec.multi_slots
+        if rng.random() < 0.06:
+            # not a documented placeholder: comments on their own lines behind the last declaration
+            extra = "".join(dec.text("leading")[0] + "\n" for _ in range(rng.choice([1, 2])))
+            out = out.rstrip("\n") + "\n" + rng.choice(["", "\n"]) + extra
+            if dec.twin is not None:
+                dec.twin = dec.twin.rstrip("\n") + "\n" + extra
+            dims["programs_with_comments_behind_the_last_token"] = dims.get("programs_with_comments_behind_the_last_token", 0) + 1
         it = {"label": b["label"] + "+comments", "src": out.encode(), "origin": b["origin"] + "+dec", "placed": placed,
               "base": b}
         items.append(it)
@@ -320,6 +360,46 @@ def gather_inputs(ctx, pid, n_gen, decorated_share=0.6, density=(0.05, 0.4), lin
                 items.append(it["twin"])
     dims["one_comment_per_placeholder_programs"] = n_slot
     dims["several_comments_per_placeholder_programs"] = n_slot_multi
+    # ---- comment TEXT: one comment of a hostile class (multi-line blocks, line comments that end in */ or \\, code,
+    # empty, > 4 KiB, tabs, multi-byte ...) at one placeholder.  Quick: every placeholder of TEMPLATE x one class
+    # of each family (rotating over the placeholders) and every placeholder of the condition / branch template x
+    # EVERY class; thorough: everything x every class.
+    body_stats = dict(dec.body_stats)
+    n_h = n_hc = 0
+
+    def add_hostile(origin, rows):
+        n = 0
+        for name, kind, cls, text, twin in rows:
+            it = {"label": "%s:%s:%s" % (origin, name, cls), "src": text.encode(), "origin": origin, "slot": name}
+            items.append(it)
+            body_stats[cls] = body_stats.get(cls, 0) + 1
+            n += 1
+            if twin is not None:
+                it["inline_line_comments"] = 1
+                it["twin"] = {"label": it["label"] + "(twin)", "src": twin.encode(), "origin": origin, "slot": name}
+                items.append(it["twin"])
+        return n
+    if ttoks is not None:
+        n_h = add_hostile("hslot", decorate.hostile_comment_per_slot(rng, ttoks, per_slot=None if ctx.thorough() else 1))
+    ctoks = lex_many([decorate.TEMPLATE_COND.encode()], pos=True)[0]
+    if ctoks is not None:
+        branch = lambda name: name.startswith(("if.", "elseif.", "else.", "block.trailing", "block.infix"))
+        n_hc = add_hostile("hcond", decorate.hostile_comment_per_slot(
+            rng, ctoks, template=decorate.TEMPLATE_COND, only=None if ctx.thorough() else branch,
+            all_line_inline=ctx.thorough()))
+    # ---- scale: very long tokens / lines (4 KiB ... 200 KiB), hundreds of operands / statements / entries
+    from gen import fmt_scale
+    srows = fmt_scale.programs(rng, ctx.thorough())
+    for lab, text in srows:
+        items.append({"label": lab, "src": text.encode(), "origin": "scale"})
+    dims["scale_programs"] = len(srows)
+    dims["scale_largest_input_bytes"] = max([len(t) for _, t in srows] + [0])
+    dims["scale_inputs_with_a_line_of_64KiB_or_more"] = sum(
+        1 for _, t in srows if max(len(x) for x in t.split("\n")) >= 65536 or any(
+            len(m) >= 65536 for m in re.findall(r'\{"[^"]*"\}', t)))
+    dims["hostile_text_per_placeholder_programs"] = n_h
+    dims["hostile_text_condition_template_programs"] = n_hc
+    dims["hostile_text_classes"] = body_stats
     ctx.slot_items = n_slot
     ctx.dims = dims
     return items
@@ -405,12 +485,12 @@ def tok_str(t):
 def model_norm(model_exe, pairs, cmd="norm", hang_s=60):
     """pairs: [(config dict, raw fmtlex reply string)] -> replies of the extracted model"""
     reqs = ["%s %s %s" % (cmd, model_conf(c), toks) for c, toks in pairs]
-    return V.run_batch([model_exe], reqs, hang_s=hang_s, mem_kb=8_000_000)
+    return par_batch([model_exe], reqs, hang_s=hang_s, mem_kb=8_000_000)
 
 
 def lex_raw(sources, hang_s=20):
     """raw fmtlex replies (strings) - what is passed to the model unchanged"""
-    return V.run_batch([IMPL, "fmtlex"], [s.hex() for s in sources], hang_s=hang_s, max_failures=40)
+    return par_batch([IMPL, "fmtlex"], [s.hex() for s in sources], hang_s=hang_s, max_failures=40)
 
 
 def strip_flags(raw):
@@ -444,19 +524,20 @@ def parse_raw(raw):
 
 
 def documented_comments(toks):
-    """comments of a token list that precede a significant token, plus those on the last token's line"""
+    """the comments the formatter has to keep: ALL of them (since the repair of the comments behind the last
+    declaration also those on their own lines after the last token, and those of a file without a token)"""
+    return [t[2] for t in toks if t[0] == "C"]
+
+
+def tail_comments(toks):
+    """comments behind the last significant token from the first one that starts a line (not a documented
+    placeholder: `} <comment>` is the comment on the line of the brace): counted as a dimension"""
     last_sig = max([i for i, t in enumerate(toks) if t[0] == "T"], default=-1)
-    out = []
     if last_sig < 0:
-        return out          # a file without a token has no placeholder at all (it is formatted to an empty file)
-    for i, t in enumerate(toks):
-        if t[0] != "C":
-            continue
-        if i < last_sig:
-            out.append(t[2])
-        elif t[1] == "0" and all(x[0] == "C" and x[1] == "0" for x in toks[last_sig + 1:i]):
-            out.append(t[2])
-    return out
+        return []
+    rest = toks[last_sig + 1:]
+    k = next((j for j, t in enumerate(rest) if t[0] == "C" and t[1] != "0"), len(rest))
+    return [t[2] for t in rest[k:] if t[0] == "C"]
 
 
 def show_toks(ts, k, width=6):
@@ -468,6 +549,13 @@ DECL_OPTION_PAIRS = [("sort_declaration_property", True), ("align_declaration_pr
                      ("sort_declaration", True), ("comment_style", "slash"), ("trailing_comment_width", 4)]
 LITERAL_CONFS = [("default", {}), ("narrow+tab+align", {"line_width": 20, "indent_style": "tab", "align_trailing_comment": True}),
                  ("unlimited+juxtaposed", {"line_width": -1, "explicit_string_concat": False, "break_compound_conditions": False})]
+SCALE_CONFS = [("default", {}), ("unlimited+juxtaposed", {"line_width": -1, "explicit_string_concat": False}),
+               ("tab+align+sort+no-break+narrow", {"indent_style": "tab", "align_trailing_comment": True, "line_width": 40,
+                                                   "sort_declaration_property": True, "break_compound_conditions": False,
+                                                   "align_declaration_property": True})]
+COND_CONFS = [("default", {}), ("no-break+narrow", {"break_compound_conditions": False, "line_width": 30}),
+              ("tab+next-line-else+sharp", {"indent_style": "tab", "always_next_line_else_if": True, "comment_style": "sharp",
+                                            "else_if": True})]
 SLOT_CONFS = [("default", {}), ("comment_style=slash", {"comment_style": "slash"}),
               ("align+tab+narrow", {"align_trailing_comment": True, "indent_style": "tab", "line_width": 20,
                                     "align_declaration_property": True})]
@@ -495,8 +583,12 @@ def plan_pairs(ctx, items, n_random):
         confs = []
         if o == "corpus":
             confs.append(("stored", it.get("conf", {})))
-        if o in ("slot", "slots"):
+        if o in ("slot", "slots", "hslot"):
             confs += SLOT_CONFS
+        elif o == "hcond":
+            confs += COND_CONFS
+        elif o == "scale":
+            confs += SCALE_CONFS
         elif o == "literal":
             confs += LITERAL_CONFS
         elif o in ("repo", "focus", "corpus"):
@@ -555,6 +647,9 @@ class Pipeline:
             self.index[(id(it), cj(c))] = i
         self.fail = {}     # pair index -> list of (aspect, text, details)
         self.n_string_tokens = self.n_multiline_strings = self.n_trailing_blank_strings = 0
+        self.n_tail_inputs = 0
+        self.n_ml_comments = self.n_long_comments = self.n_line_comments_ending_in_block_end = self.n_empty_comments = 0
+        self.max_token_bytes = self.max_output_line_bytes = 0
         self.parseerr_by_origin = {}
         self._judge()
 
@@ -612,10 +707,24 @@ class Pipeline:
             cout = [t[2] for t in tout if t[0] == "C"]
             self.stats["comments_checked"] += 1
             self.stats["comments_total"] += len(cin)
+            for x in cin:
+                if x.startswith("/*"):
+                    self.n_ml_comments += "\n" in x
+                    self.n_empty_comments += x.strip("/* \t") == ""
+                else:
+                    self.n_line_comments_ending_in_block_end += x.endswith("*/")
+                    self.n_empty_comments += x.strip("#/ \t") == ""
+                self.n_long_comments += len(x) > 4096
+            if it["origin"] == "scale":
+                self.max_token_bytes = max([self.max_token_bytes] + [len(t[2]) for t in tin])
+                self.max_output_line_bytes = max([self.max_output_line_bytes] + [len(l) for l in r["f1"].split(b"\n")])
             if conf["sort_declaration"] or conf["sort_declaration_property"]:
                 same = sorted(cin) == sorted(cout)
             else:
                 same = cin == cout
+            tail = [py_restyle(conf["comment_style"], x) for x in tail_comments(tin)]
+            if tail:
+                self.n_tail_inputs += 1
             if not same:
                 k = first_diff(cin, cout)
                 missing = [x for x in cin if cin.count(x) > cout.count(x)]
@@ -658,13 +767,14 @@ class Pipeline:
         if tw is None:
             return None
         j = self.index.get((id(tw), cj(c)))
-        if j is None or j in self.fail or self.res[j]["status"] != "ok":
+        if j is None or self.res[j]["status"] != "ok" or any(not d.get("facts") for _, _, d in self.fail.get(j, [])):
             return None
         return {"construct": "line-comment-inline"}
 
     def replay_of(self, i, shrink_aspect=None):
         it, lab, c = self.pairs[i]
-        rep = {"label": it["label"], "config": full(c), "config_label": lab,
+        rep = {"label": it["label"], "config": full(c), "config_label": lab, "source_bytes": len(it["src"]),
+               "source_sha256": hashlib.sha256(it["src"]).hexdigest(),
                "source": it["src"].decode("utf-8", "replace")[:6000],
                "formatted": self.res[i].get("f1", b"").decode("utf-8", "replace")[:6000]}
         if shrink_aspect:
@@ -691,7 +801,7 @@ class Pipeline:
             for aspect, text, details in self.fail[i]:
                 if aspect not in aspects:
                     continue
-                facts = self.known_facts(i)
+                facts = details.get("facts") or self.known_facts(i)
                 key = aspect + ":" + text[:50]
                 first = key not in seen
                 seen[key] = seen.get(key, 0) + 1
@@ -710,7 +820,7 @@ class Pipeline:
         """C14 determinism across processes: format again in a fresh implrun process"""
         idx = self.ok if sample >= len(self.ok) else self.ctx.rng.sample(self.ok, sample)
         reqs = ["run %s %s" % (cj(self.pairs[i][2]), self.pairs[i][0]["src"].hex()) for i in idx]
-        reps = V.run_batch([IMPL, "fmt"], reqs, hang_s=20, max_failures=40)
+        reps = par_batch([IMPL, "fmt"], reqs, hang_s=20, max_failures=40)
         n = 0
         for i, r in zip(idx, reps):
             n += 1
@@ -766,6 +876,14 @@ class Pipeline:
             "string_literals_compared": self.n_string_tokens,
             "multi_line_string_literals_compared": self.n_multiline_strings,
             "string_literals_with_blank_before_line_feed": self.n_trailing_blank_strings,
+            "multi_line_block_comments_compared": self.n_ml_comments,
+            "comments_longer_than_4096_bytes_compared": self.n_long_comments,
+            "line_comments_ending_in_block_terminator_compared": self.n_line_comments_ending_in_block_end,
+            "empty_comments_compared": self.n_empty_comments,
+            "inputs_with_comments_behind_the_last_token": self.n_tail_inputs,
+            "scale_longest_token_bytes": self.max_token_bytes,
+            "scale_longest_physical_output_line_bytes": self.max_output_line_bytes,
+            "workers": WORKERS,
         })
         return d
 
